@@ -284,6 +284,43 @@ func (g *c16Gen) structured() []c16GenReq {
 		Body: []c16Piece{{"[", 1}, {`"x",`, g.c.Pick(100000, 2000000)}, {`"x"]`, 1}}}, "off common body=list:mal*")
 	add(&c16Req{Method: "POST", Path: c16API + "/webhook", CT: "application/json",
 		Body: []c16Piece{{`{"url":"http://c16.example/new","extra":[`, 1}, {"0,", g.c.Pick(100000, 2000000)}, {`0]}`, 1}}}, "off whpost body=ok:new")
+	// ---- client-supplied LISTS at the sizes where they stop fitting into bound SQL variables / IN lists
+	// (SQLite: 32766 variables, PostgreSQL: 65535; 999 = the old SQLite default).  Exact element counts.
+	// quick: one size above 32766 for verify (store genesis) and commonAncestor (store tallorphan) - the two stores
+	// that finish first; thorough: every boundary on the base store, in the memory-limited child like all big bodies.
+	{
+		listBody := func(el string, n int) []c16Piece {
+			return []c16Piece{{"[", 1}, {el + ",", n - 1}, {el + "]", 1}}
+		}
+		var vSizes, cSizes, oSizes []int
+		all := []int{999, 1000, 32766, 32767, 32768, 65535, 65536}
+		switch {
+		case g.c.Thorough() && f.shape == "base":
+			vSizes, cSizes, oSizes = all, all, all
+		case !g.c.Thorough() && f.shape == "genesis":
+			vSizes, oSizes = []int{32767}, []int{32767}
+		case !g.c.Thorough() && f.shape == "tallorphan":
+			cSizes = []int{32767}
+		}
+		deep := known(nrows - 1) // the last row: a header that is not genesis wherever the store has more than genesis
+		for _, n := range vSizes {
+			add(&c16Req{Method: "POST", Path: c16API + "/chain/merkleroot/verify", CT: "application/json", Body: listBody(item(m1, "1"), n)},
+				fmt.Sprintf("off verify body=list:%d", n))
+		}
+		for _, n := range cSizes {
+			add(&c16Req{Method: "POST", Path: c16API + "/chain/header/commonAncestor", CT: "application/json", Body: listBody(`"`+deep+`"`, n)},
+				fmt.Sprintf("off common body=list:k%d*%d", nrows-1, n))
+			add(&c16Req{Method: "POST", Path: c16API + "/chain/header/commonAncestor", CT: "application/json", Body: listBody(`"`+g.unknownHashes()[2]+`"`, n)},
+				fmt.Sprintf("off common body=list:unk*%d", n))
+		}
+		for _, n := range oSizes {
+			// bodies of the routes that bind no list: an array where an object / nothing is expected, and a huge ignored member
+			add(&c16Req{Method: "POST", Path: c16API + "/webhook", CT: "application/json", Body: listBody(`"http://c16.example/new"`, n)}, "off whpost body=bad:type")
+			add(&c16Req{Method: "POST", Path: c16API + "/webhook", CT: "application/json",
+				Body: append(append([]c16Piece{{`{"url":"http://c16.example/new","requiredAuth":{"type":"bearer","token":"t"},"urls":`, 1}}, listBody(`"http://c16.example/x"`, n)...), c16Piece{"}", 1})}, "off whpost body=ok:new")
+			add(&c16Req{Method: "POST", Path: c16API + "/access", CT: "application/json", Body: listBody(`"`+c16UserToken+`"`, n)}, "off accpost")
+		}
+	}
 	for i := 0; i < nrows; i++ {
 		add(g.post("/chain/merkleroot/verify", "["+item(f.rows[i].Merkle, fmt.Sprint(f.rows[i].Height))+"]"), "off verify body=list:1")
 	}
